@@ -2,6 +2,7 @@
 # try_seed.sh <seed-id> [tier] : apply a kept seeded change to /repo, run the property's check, undo it
 ID="$1"; TIER="${2:-quick}"; PROP="${ID%%_*}"
 cd /verif
+export VERIF_NO_EVIDENCE=1
 [ -z "$(git -C /repo status --porcelain)" ] || { echo "/repo not clean"; exit 3; }
 git -C /repo apply "/verif/seeded/$ID/patch.diff" || exit 3
 bin/vcheck "$TIER" "$PROP" "${@:3}"; RC=$?
